@@ -148,7 +148,10 @@ def divmod_axioms():
     return [z3.ForAll([a, n], z3.Implies(n != 0, z3.And(a == n * pydiv(a, n) + pymod(a, n),
                                                         z3.Implies(n > 0, z3.And(pymod(a, n) >= 0, pymod(a, n) < n)),
                                                         z3.Implies(n < 0, z3.And(pymod(a, n) <= 0, pymod(a, n) > n)))),
-                      patterns=[pydiv(a, n), pymod(a, n)])]
+                      patterns=[pydiv(a, n), pymod(a, n)]),
+            # exact multiples: (a*n) // n == a and (a*n) % n == 0
+            z3.ForAll([a, n], z3.Implies(n != 0, z3.And(pydiv(a * n, n) == a, pymod(a * n, n) == 0)),
+                      patterns=[pydiv(a * n, n), pymod(a * n, n)])]
 
 
 def _floordiv_const(a, b):
